@@ -46,6 +46,7 @@ type SAddr struct{ X SExpr }
 type SIte struct{ C, A, B SExpr }
 
 type Clause struct {
+	Site  string // for assert clauses: "call <name>#k"
 	Label string
 	Props []string
 	Text  string
@@ -502,7 +503,17 @@ func loadContractFile(file string, out map[string]*FuncContract) error {
 				cur.Modifies = append(cur.Modifies, strings.TrimSpace(m))
 			}
 		case "requires", "ensures", "onpanic", "invariant", "decreases", "writes", "assert", "lemma", "alloc-bound":
+			site := ""
+			if kw == "assert" {
+				i := strings.LastIndex(rest, " @ ")
+				if i < 0 {
+					return fail(fmt.Errorf("assert needs `@ call name#k`"))
+				}
+				site = strings.TrimSpace(rest[i+3:])
+				rest = strings.TrimSpace(rest[:i])
+			}
 			c, err := parseClause(rest)
+			c.Site = site
 			if err != nil {
 				return fail(err)
 			}
